@@ -175,6 +175,29 @@ where
             "contains" => {
                 ev.r = vec![self.tab(t).contains(&K::q(k)) as i64];
             }
+            "iter_default" => {
+                use hashbrown::hash_set as hs;
+                let mut good = 0i64;
+                let mut total = 0i64;
+                macro_rules! chk {
+                    ($it:expr) => {{
+                        let mut it = $it;
+                        total += 1;
+                        let sh = it.size_hint() == (0, Some(0));
+                        let ln = it.len() == 0;
+                        let n1 = it.next().is_none();
+                        let n2 = it.next().is_none();
+                        let f = it.fold(0usize, |a, _| a + 1) == 0;
+                        if sh && ln && n1 && n2 && f {
+                            good += 1;
+                        }
+                    }};
+                }
+                chk!(hs::Iter::<K>::default());
+                chk!(hs::Iter::<K>::default().clone());
+                chk!(hs::IntoIter::<K, CheckingAlloc>::default());
+                ev.r = vec![good, total];
+            }
             "remove" => {
                 ev.r = vec![self.tab(t).remove(&K::q(k)) as i64];
             }
